@@ -38,7 +38,7 @@ func rawj(v any) json.RawMessage { b, _ := json.Marshal(v); return b }
 // only restricts the storage-proof scenarios to one saved case (replay mode).
 var only *struct {
 	Version, Era, Leaves, Challenged int
-	Size                              uint64
+	Size, TaxH, ProofH                uint64
 	Proof                             string
 }
 
@@ -52,7 +52,7 @@ func replayProof(c *vlib.Ctx) {
 		What string `json:"what"`
 		Case struct {
 			Version, Era, Leaves, Challenged int
-			Size                              uint64
+			Size, TaxH, ProofH                uint64
 			Proof                             string
 		} `json:"case"`
 	}
@@ -75,6 +75,7 @@ func proofs(c *vlib.Ctx) {
 	res := c.MustTLC(vlib.TLCOpts{SpecDirs: []string{"merkle"}, Module: "StorageProof", Config: cfgName, Workers: 8, Timeout: 15 * time.Minute, Xss: "64m"})
 	var shapes []shape
 	var eras []eraCase
+	eraOf := map[[3]uint64]int{} // (child, tax fork height, proof fork height) -> era, from the specification
 	for _, ln := range res.Lines {
 		switch {
 		case strings.HasPrefix(ln, "SHAPE "):
@@ -83,6 +84,14 @@ func proofs(c *vlib.Ctx) {
 				c.Fatal("shape: %v", err)
 			}
 			shapes = append(shapes, s)
+		case strings.HasPrefix(ln, "ERAOF "):
+			var rows []struct{ Child, TaxH, ProofH uint64; Era int }
+			if err := json.Unmarshal([]byte(vlib.UnquoteTLA(strings.TrimPrefix(ln, "ERAOF "))), &rows); err != nil {
+				c.Fatal("era table: %v", err)
+			}
+			for _, r := range rows {
+				eraOf[[3]uint64{r.Child, r.TaxH, r.ProofH}] = r.Era
+			}
 		case strings.HasPrefix(ln, "ERAS "):
 			if err := json.Unmarshal([]byte(vlib.UnquoteTLA(strings.TrimPrefix(ln, "ERAS "))), &eras); err != nil {
 				c.Fatal("eras: %v", err)
@@ -129,9 +138,18 @@ func proofs(c *vlib.Ctx) {
 	var wg sync.WaitGroup
 	sem := make(chan struct{}, 14)
 	type variant struct {
-		ver, era int
+		ver, era     int
+		taxH, proofH uint64
 	}
-	variants := []variant{{1, 0}, {1, 1}, {1, 2}, {2, 2}}
+	// the proof is always presented in the block at height 2; fork heights far away, and exactly at / next to that block
+	variants := []variant{{2, 2, 0, 0}}
+	for _, fh := range [][2]uint64{{1000, 1000}, {0, 1000}, {0, 0}, {0, 2}, {0, 3}, {2, 1000}, {3, 1000}, {2, 2}, {2, 3}} {
+		era, ok := eraOf[[3]uint64{2, fh[0], fh[1]}]
+		if !ok {
+			c.Fatal("the specification's era table has no entry for fork heights %v", fh)
+		}
+		variants = append(variants, variant{1, era, fh[0], fh[1]})
+	}
 	for _, sh := range shapes {
 		if only != nil && (sh.N != only.Leaves || sh.I != only.Challenged) {
 			continue
@@ -142,7 +160,7 @@ func proofs(c *vlib.Ctx) {
 		for _, tail := range []uint64{1, 37, 64} {
 			size := uint64(64*(sh.N-1)) + tail
 			for _, v := range variants {
-				if only != nil && (size != only.Size || v.ver != only.Version || v.era != only.Era) {
+				if only != nil && (size != only.Size || v.ver != only.Version || v.era != only.Era || v.taxH != only.TaxH || v.proofH != only.ProofH) {
 					continue
 				}
 				wg.Add(1)
@@ -152,12 +170,7 @@ func proofs(c *vlib.Ctx) {
 					defer func() { <-sem }()
 					p := chain.Params{MatDelay: 1, AllowH: 1000, RequireH: 1001, EphH: 1002, FoundH: 5000, Reward: 500,
 						GenSC: []chain.AbsOut{{600000, "A"}}, GenSF: []chain.AbsOut{{10000, "A"}}}
-					switch v.era {
-					case 0:
-						p.TaxForkH, p.ProofForkH = 1000, 1000
-					case 1:
-						p.TaxForkH, p.ProofForkH = 0, 1000
-					}
+					p.TaxForkH, p.ProofForkH = v.taxH, v.proofH
 					if v.ver == 2 {
 						p.AllowH, p.RequireH, p.EphH = 0, 1, 0
 					}
@@ -240,7 +253,10 @@ func proofs(c *vlib.Ctx) {
 						err, pan := sim.Validate(b, sim.Supplement(ctx.V1))
 						accepted := err == nil && pan == nil
 						name := fmt.Sprintf("v%d/era%d", v.ver, v.era)
-						payload := map[string]any{"version": v.ver, "era": v.era, "leaves": sh.N, "challenged": sh.I, "size": size, "proof": kind}
+						if v.ver == 1 && (v.taxH == 2 || v.taxH == 3 || v.proofH == 2 || v.proofH == 3) {
+							name += "-at-fork"
+						}
+						payload := map[string]any{"version": v.ver, "era": v.era, "taxH": v.taxH, "proofH": v.proofH, "leaves": sh.N, "challenged": sh.I, "size": size, "proof": kind}
 						mu.Lock()
 						evals++
 						gen := kind
